@@ -234,7 +234,7 @@ func runCrashTest(t *testing.T, prop, test, rule string, gen func(rt *rapid.T, w
 			}
 			for i := 0; i < nsetup; i++ {
 				op := genOp(rt, w, pre, *crashSetupProfile)
-				if i == 0 && pct(rt, 8, "setup.big") {
+				if i == nsetup-1 && pct(rt, 8, "setup.big") {
 					// a log larger than the 64 KiB windows readers and rewriters work with
 					op = Op{Kind: "new_task", Mode: "bodystdin", Title: sp(w.UniqueTitle("big")), Body: sp(bigBody(between(rt, 66000, 150000, "setup.bigsize")))}
 				}
